@@ -607,7 +607,9 @@ func printedForms(thorough bool) map[string][]string {
 	return out
 }
 
-var injections = []string{`"`, predDelim, litDelim, "]", "[", "<", ">", "\t", " ", "/", "_", "^^", "@", `\`, "type:", "\n"}
+var injections = []string{`"`, predDelim, litDelim, "]", "[", "<", ">", "\t", " ", "/", "_", "^^", "@", `\`, "type:", "\n",
+	// runs of letters whose case-folded form has another byte length, and invalid UTF-8: offsets taken on a folded copy
+	"\u023a\u023a\u023a\u023a\u023a\u023a", "\u0130\u0130\u0130\u0130\u0130\u0130\u0130\u0130\u0130", "\u212a\u212a\u212a\u212a\u212a", "\xff\xfe\xfd\xfc\xfb"}
 
 func mutations(s string) []string {
 	seen := map[string]bool{}
